@@ -29,7 +29,7 @@ slice expressions that rely on the constructor's invariant.
 
 ASSUMPTIONS = ['64-bit target (usize = u64)', 'slice lengths are at most isize::MAX']
 
-FLOORS = {'R12.1': 2, 'R12.2': 8, 'R12.3': 12, 'R12.4': 4, 'R12.5': 3, 'R12.6': 2, 'R12.7': 1}
+FLOORS = {'R12.1': 2, 'R12.2': 8, 'R12.3': 12, 'R12.4': 4, 'R12.5': 4, 'R12.6': 2, 'R12.7': 1}
 
 MV = 'rough_tlv::decoder::MessageView'
 
@@ -306,6 +306,12 @@ def r12_5(cx):
             rr = c.args[1].strip()
             if rr.kind == 'agg' and rr.info.get('variant') == 'Range' and rr.args[0].is_const_int(0) and rr.args[1].is_const_int(4) and rooted_in_param_field(c.args[0], 'storage'):
                 src = c
+    ie = [f for f in prog.fns.values() if f.name == MV + '::is_empty']
+    if ie:
+        r = ie[0].local_expr(0, []).strip()
+        oke = r.kind == 'binop' and r.op == 'Eq' and any(is_call(x, MV + '::len') for x in (r.a, r.b)) and any(x.is_const_int(0) for x in (r.a, r.b))
+        oke = oke or (r.kind == 'unop' and r.op == 'Not' and False)
+        cx.check(oke, 'is_empty', ie[0], None, 'is_empty() = (len() == 0)', fail_detail='is_empty() is %s, not len() == 0 (the offsets array is empty for one pair as well as for none)' % show(r)[:120])
     cx.check(ok and src is not None, 'len', ln, None, 'len() = u32::from_le_bytes(storage[0..4]) as usize', fail_detail='len() is %s' % show(e)[:200])
 
 
